@@ -316,6 +316,13 @@ RESTART:
 	if string(checkResp.PrevValidatorSet.PubKeyHash) != ph.Header.PrevCommitProof.PubKeyHash {
 		return tmconsensus.HandleProposedHeaderBadPrevCommitProofPubKeyHash
 	}
+	if ph.Header.Height > m.initialHeight && len(checkResp.PrevValidatorSet.PubKeys) == 0 {
+		// The kernel did not report a previous validator set
+		// (it does not track one for the committing view),
+		// so a previous commit proof claiming an empty public key hash
+		// cannot be validated against anything.
+		return tmconsensus.HandleProposedHeaderBadPrevCommitProofPubKeyHash
+	}
 
 	// The PrevCommitProof should be in a finalized form,
 	// so we need to use the CommonMessageSignatureProofScheme to validate it.
